@@ -46,6 +46,16 @@ fn main() {
                 None => println!("{text}"),
             }
         }
+        "chunk" => {
+            // xplore chunk <NAME> --tier T : full observations of one dump chunk
+            quiet_panics();
+            let tier = match arg(&args, "--tier").as_deref() {
+                Some("thorough") => Tier::Thorough,
+                _ => Tier::Quick,
+            };
+            let ctx = Ctx { tier, config: String::new(), only: None, crates: None };
+            println!("{}", serde_json::to_string(&props::dump::chunk_detail(&args[2], &ctx)).unwrap());
+        }
         "replay" => {
             let v: serde_json::Value = serde_json::from_str(&std::fs::read_to_string(&args[2]).unwrap()).unwrap();
             let prop = v["property"].as_str().unwrap();
